@@ -326,14 +326,13 @@ def step (cfg : Cfg) (s : St) : Ev → St
   | .spBegin => { s with sps := (s.db, s.uow) :: s.sps }
   | .spCommit => { s with sps := s.sps.tail }
   -- the DBMS restores the tables; the unit of work goes back to what it knew at SAVEPOINT
-  -- (current transaction and operations as remembered when the savepoint began; dropped entirely
-  -- if it did not exist then); the version-object cache and the pending association statements
-  -- are emptied
+  -- (current transaction, operations and pending association statements as remembered when the
+  -- savepoint began; dropped entirely if it did not exist then); the version-object cache is emptied
   | .spRollback =>
     match s.sps with
     | [] => s
     | (snap, u) :: rest =>
-      { s with db := snap, uow := u.map (fun u => { u with vobjs := [], pending := [] }), sps := rest }
+      { s with db := snap, uow := u.map (fun u => { u with vobjs := [] }), sps := rest }
 
 def run (cfg : Cfg) (s : St) (evs : List Ev) : St := evs.foldl (step cfg) s
 
